@@ -305,9 +305,11 @@ def to_str(component: BinaryStr) -> str:
         return f"sha256digest={component[offset:].hex()}"
     elif typ == TYPE_PARAMETERS_SHA256:
         return f"params-sha256={component[offset:].hex()}"
-    elif typ in ALTERNATE_URI_TYPE:
+    elif typ in ALTERNATE_URI_TYPE and length <= 8:
         return ALTERNATE_URI_TYPE[typ].format(int.from_bytes(component[offset:], 'big'))
     else:
+        # (a typed component whose value is longer than any number of the naming conventions is written in the generic form:
+        # from_str cannot read such a number back, and printing a very long one raises ValueError)
         ret = ""
         if typ != TYPE_GENERIC:
             ret = f"{typ}="
